@@ -27,7 +27,7 @@ PLAN = {
     "thorough": {"shards": 16, "shard_timeout": 3600, "case_timeout": 300, "maxlen": 8, "alg": 400000, "max_case_timeouts": 10},
 }
 THRESHOLDS = {
-    "quick": {"tracker_histories": 4000, "registrations_checked": 20000, "algorithm_runs": 150, "alg:gp": 20, "alg:rs": 20, "alg:hc": 20, "alg:opo": 20, "histories_with_ties": 1000, "minimising": 1500, "shared_evaluator_cases": 100, "shared_evaluator:parallel": 30, "presented_with_fitness": 100, "shared_evaluator_runs": 30, "searches_on_a_warm_tracker": 20, "second_search_calls": 20, "tracker_histories_tiny_values": 1000, "searches_with_a_user_written_tracker": 10, "tracker_histories_huge_values": 1000},
+    "quick": {"gp_runs_whose_step_evaluates_its_offspring_itself": 15, "tracker_histories": 4000, "registrations_checked": 20000, "algorithm_runs": 150, "alg:gp": 20, "alg:rs": 20, "alg:hc": 20, "alg:opo": 20, "histories_with_ties": 1000, "minimising": 1500, "shared_evaluator_cases": 100, "shared_evaluator:parallel": 30, "presented_with_fitness": 100, "shared_evaluator_runs": 30, "searches_on_a_warm_tracker": 20, "second_search_calls": 20, "tracker_histories_tiny_values": 1000, "searches_with_a_user_written_tracker": 10, "tracker_histories_huge_values": 1000},
     "thorough": {"tracker_histories": 12000, "registrations_checked": 80000, "algorithm_runs": 3800},
 }
 
